@@ -205,6 +205,18 @@ func c19SystemFile(home, etc string) (string, bool) {
 	return "", false
 }
 
+func c19Resolvable(name string) bool {
+	switch name {
+	case "WithSSHConfigFileSystem":
+		_, ok := c19SystemFile("config", "ssh_config")
+		return ok
+	case "WithSSHKnownHostsFileSystem":
+		_, ok := c19SystemFile("known_hosts", "ssh_known_hosts")
+		return ok
+	}
+	return true
+}
+
 // ---------------------------------------------------------------- option table
 
 // target objects
@@ -506,6 +518,9 @@ func c19GenOpts(r *sim.Rng, kind string, badRate int) []c19Opt {
 		if len(l) > 0 && r.Chance(1, 5) { // duplicates: the same setting named again
 			name = l[r.Intn(len(l))].Name
 		}
+		if badRate == 0 && !c19Resolvable(name) {
+			continue // a *System file option that cannot succeed on this machine
+		}
 		l = append(l, c19GenOpt(r, name, badRate))
 	}
 	if kind == "n" && r.Chance(7, 8) { // a network driver needs these two to be constructible at all
@@ -647,6 +662,22 @@ func runC19(seed uint64, n int, tier string) {
 	cases := make([]*c19Case, n)
 	for i := range cases {
 		cases[i] = genC19(rng.Fork(), i)
+	}
+	if tier == "thorough" { // plus every constructor alone, valid and invalid, through every kind
+		for _, k := range []string{"g", "n", "c"} {
+			for _, name := range c19Names {
+				for _, bad := range []int{0, 1} {
+					r := rng.Fork()
+					c := &c19Case{Kind: k, Class: "single", Opts: []c19Opt{c19GenOpt(r, name, bad)}}
+					if k == "n" {
+						c.Opts = append(c.Opts, c19Opt{Name: "WithPrivilegeLevels", L: c19GenPrivs(r, false)},
+							c19Opt{Name: "WithDefaultDesiredPriv", S: "p0"})
+					}
+					cases = append(cases, c)
+				}
+			}
+		}
+		n = len(cases)
 	}
 	parallel(n, func(i int) { runC19Case(caseID("C19", seed, i), cases[i]) })
 }
